@@ -63,6 +63,23 @@ CLAIMED['C10'] = dict(
     technique='TLA+ state machine of the parser cache checked by TLC (safety+liveness); TLC histories replayed on the real shared parser; TLC trace validation',
     design='3/C10')
 
+CLAIMED['C11'] = dict(
+    text='GraderCall.tla holds the reference machine of the statement (last successfully supplied expect; what a fresh grader '
+         'answers is an uninterpreted term) and the life cycle of ItemGrader.__call__ / AbstractGrader.__call__ with one action '
+         'per code block and the object fields (stored answers, inferring_answers, log_created, the debug log). TLC checks '
+         'SameAsFresh, NoStaleLog, CleanBetweenCalls and that every call ends, for all call histories of length <= 3 (thorough 4) '
+         'over 6 expect kinds x 5 input kinds, configured and unconfigured, and that the two model variants with the original '
+         'block order violate SameAsFresh / NoStaleLog (these were genuine defects, repaired by fix: commits). Every TLC history '
+         '(length 2 quick / 3 thorough) is replayed on String, Formula, Numerical, Matrix, SingleList and Interval graders with '
+         'debug on and off: each call is compared with freshly constructed graders, the object fields with the model state '
+         '(drift), and process-wide settings and the author configuration dictionaries with snapshots. Long random sequences '
+         'over many grader objects with bystander graders in between are validated by GraderCallTrace, where the TLA+ '
+         'reference machine decides which fresh answer each call must equal.',
+    note='Trusted: TLC; freshly constructed graders run with the same random seed are the oracle for a single call; '
+         'the debug line "Expect value inferred" is ignored in comparisons.',
+    technique='TLA+ life-cycle state machine + reference machine checked by TLC; TLC histories replayed against fresh graders; TLC trace validation',
+    design='3/C11')
+
 REASON_PENDING = 'check not built yet in this revision; the design (DESIGN.md section 3) covers it and it will be claimed once its spec and binding exist'
 
 
